@@ -65,7 +65,7 @@ def call(obj, op, arg, y=None):
         else:
             raw = getattr(obj, op)(arg)
         return ("ok", canon(raw), raw)
-    except SimInterrupt:
+    except (SimInterrupt, core.SimAllocFail):
         return ("int", None, None)
     except core.CallHang:
         return ("hang", None, None)
@@ -134,6 +134,7 @@ class Client:
         self.name = name
         self.obj = obj
         self.is_det = isinstance(obj, BaseDetector)
+        self.either = None
         self.lin = None  # None | list of (chunk, ds_id) | UNSPEC
         self.fitspec = None
         self.stale = False
@@ -148,6 +149,16 @@ class Client:
     @property
     def kind(self):
         return type(self.obj).__name__
+
+    # the training lineage; any assignment ends the "overwritten in place" state
+    @property
+    def lin(self):
+        return self._lin
+
+    @lin.setter
+    def lin(self, v):
+        self._lin = v
+        self.either = None
 
     def chunks(self):
         if not isinstance(self.lin, list):
@@ -245,14 +256,17 @@ class Sim:
             return False
         return any(id(o) in self.torn for o in subobjects(cl.obj))
 
-    def comparable(self, cl, cur):
-        if cl.lin == UNSPEC or cl.stale:
+    def comparable(self, cl, cur, ignore_lin=False):
+        if ignore_lin:
+            if cl.either is None or cl.stale:
+                return False
+        elif cl.lin == UNSPEC or cl.stale:
             return False
         if self.is_torn(cl):
             return False
         if not cl.is_det and cl.amb:
             return False
-        if cl.lin is None:
+        if cl.lin is None and not ignore_lin:
             return True
         return cl.fitspec == cur
 
@@ -564,6 +578,9 @@ class Sim:
         self.check_returned()
         self.returned = []
         new = np.array(st["values"], dtype=self.ds_spec[d].get("dtype", "float64"))
+        import copy as _copy
+
+        before = _copy.deepcopy(obj)
         try:
             if isinstance(obj, np.ndarray):
                 obj[...] = new.reshape(obj.shape)
@@ -577,7 +594,14 @@ class Sim:
         self.ds_fp[d] = fingerprint_arg(obj)
         for c in self.clients:
             if isinstance(c.lin, list) and any(ch is obj for ch, _ in c.lin):
+                old = [(before if ch is obj else ch) for ch, _ in c.lin]
+                new_ = [ch for ch, _ in c.lin]
+                overlap = bool(getattr(c, "overlap", False))
                 c.lin = UNSPEC
+                # "the data given to the last fit" now has two readings (the values at
+                # the time of the fit / the values the object holds now): an output must
+                # agree with a fresh object under one of them
+                c.either = (old, new_, overlap)
         self.probe("dataset_mutated_in_place")
         self.sig.append(("user", "mutate", None, None))
         ev["res"] = "ok"
@@ -671,14 +695,23 @@ class Sim:
             self.probe("y_passed")
         arg_fp = fingerprint_arg(arg)
         was_comparable = cur is not None and self.comparable(cl, cur)
+        # (detectors only: their output calls take the data as the argument.  A scorer
+        # like LocalAnomalyScore legitimately mixes sums taken at fit with rows read at
+        # evaluate time, which agrees with neither reading.)
+        either = cl.either if (cl.is_det and cur is not None and not was_comparable and self.comparable(cl, cur, ignore_lin=True)) else None
         lineage_before = cl.chunks()
 
         # ---- run the system under test (with the injected fault, if any)
         fired = None
         if fkind == "interrupt":
             self.stats["faults_planned"]["interrupt"] += 1
-            tr = LineTracer(int(fault["at"]))
+            tr = LineTracer(int(fault["at"]), alloc=bool(fault.get("alloc")))
             res = tr.run(lambda: call(cl.obj, op, arg, y))
+            if tr.fired_at is not None and fault.get("alloc"):
+                if res[0] == "exc":
+                    # the allocation failure left the call as another exception
+                    res = ("int", None, None)
+                self.probe("alloc_fail_swallowed" if res[0] == "ok" else "alloc_fail_propagated")
             if res[0] == "int":
                 fired = "interrupt"
                 self.stats["faults_fired"]["interrupt"] += 1
@@ -735,7 +768,9 @@ class Sim:
         elif op in ("update", "update_predict"):
             self.after_update(cl, i, op, arg, cont, cur, res, fired, ev, i_step, fkind, was_comparable, lineage_before, st.get("overlap", 0))
         elif compare_output:
-            if not was_comparable:
+            if not was_comparable and either is not None and not fired:
+                self.compare_either(cl, op, arg, cur, either, res, ev, i_step, fkind)
+            elif not was_comparable:
                 self.stats["skipped_unspecified"] += 1
                 ev["cmp"] = "skip"
             elif fired:
@@ -747,6 +782,38 @@ class Sim:
             cl.prev_interrupted_output = bool(fired)
         if ds_id is not None and not self.ds_spec[ds_id].get("bad"):
             cl.last_ds = ds_id
+
+    def compare_either(self, cl, op, arg, cur, either, res, ev, i_step, fkind):
+        """Output of a client whose training data object was overwritten in place since
+        its fit: it must agree (discrete parts exactly, floats to rounding) with a fresh
+        object fitted on the values as they were at the fit OR on the values the object
+        holds now.  Agreeing with neither means the output reflects something else - e.g.
+        results remembered for 'the same object' although its values changed."""
+        old, new_, overlap = either
+        outs = []
+        for chunks in (old, new_):
+            lin = core.Lineage(chunks)
+            lin.overlap = overlap
+            tw = twin_outcome(cur, lin, op, arg)
+            if tw["status"] != "done" or tw["res"][0] == "hang":
+                self.stats["skipped_unspecified"] += 1
+                ev["cmp"] = "skip"
+                return
+            outs.append(tw["res"])
+        self.probe("compared_after_overwrite_either_way")
+        for r2 in outs:
+            if res[:2] == r2[:2] or (res[0] == "ok" and r2[0] == "ok" and close_enough(res[2], r2[2])):
+                ev["cmp"] = "eq_either"
+                return
+        ev["cmp"] = "NE"
+        self.violate(
+            "output_mismatch",
+            cl,
+            op,
+            i_step,
+            fkind,
+            {"history": describe(res), "fresh_fitted_on_values_at_fit": describe(outs[0]), "fresh_fitted_on_values_now": describe(outs[1]), "spec": cur, "route": "ctor", "condition": "training data object overwritten in place since the fit"},
+        )
 
     def compare(self, cl, op, arg, cur, lineage, res, ev, i_step, fkind, rel):
         tw = twin_outcome(cur, lineage, op, arg)
